@@ -18,23 +18,40 @@ import (
 )
 
 type CheckCfg struct {
-	Property    string        `json:"property"`
-	Title       string        `json:"title"`
-	Files       []string      `json:"files"` // relative to /verif/harness and /repo
-	Assumptions []string      `json:"assumptions"`
-	Outside     []string      `json:"outside_claim"`
-	Harnesses   []*HarnessJSON `json:"harnesses"`
-	SkipInit    []string      `json:"skip_init"`
-	Workers     int           `json:"workers"`
-	Module      string        `json:"module"`
+	Property      string              `json:"property"`
+	Title         string              `json:"title"`
+	Files         []string            `json:"files"` // relative to /verif/harness and /repo
+	Assumptions   []string            `json:"assumptions"`
+	Outside       []string            `json:"outside_claim"`
+	Harnesses     []*HarnessJSON      `json:"harnesses"`
+	SkipInit      []string            `json:"skip_init"`
+	Workers       int                 `json:"workers"`
+	Module        string              `json:"module"`
+	Shared        map[string][]string `json:"shared"`         // rel pkg dir -> names of /verif/harness/_shared/<name>.go injected into that package (package clause rewritten)
+	NativeOverlay map[string]string   `json:"native_overlay"` // repo-relative file -> /verif/harness-relative replacement, used by the native replay only (native counterpart of a symbolic-run stub)
 }
 
 type HarnessJSON struct {
 	HarnessCfg
-	ParamsQuick    map[string]int `json:"params_quick"`
-	ParamsThorough map[string]int `json:"params_thorough"`
-	UnwindThorough int            `json:"unwind_thorough"`
-	MaxPathsThorough int          `json:"maxpaths_thorough"`
+	ParamsQuick      map[string]int `json:"params_quick"`
+	ParamsThorough   map[string]int `json:"params_thorough"`
+	UnwindThorough   int            `json:"unwind_thorough"`
+	MaxPathsThorough int            `json:"maxpaths_thorough"`
+	StubSets         []string       `json:"stubsets"` // named groups of stubs (see stubSets); explicit "stubs" entries win
+}
+
+// stubSets: the stub tables that go with the shared harness helpers of /verif/harness/_shared
+var stubSets = map[string]map[string]string{
+	"kv": {
+		"(github.com/cosmos/cosmos-sdk/types.Context).KVStore":       "verifKVStore",
+		"(github.com/cosmos/cosmos-sdk/types.Context).BlockHeader":   "verifCtxHeader",
+		"github.com/cosmos/cosmos-sdk/store/cachekv.NewStore":        "verifCacheNew",
+		"(*github.com/cosmos/cosmos-sdk/store/cachekv.Store).Get":    "verifCacheGet",
+		"(*github.com/cosmos/cosmos-sdk/store/cachekv.Store).Has":    "verifCacheHas",
+		"(*github.com/cosmos/cosmos-sdk/store/cachekv.Store).Set":    "verifCacheSet",
+		"(*github.com/cosmos/cosmos-sdk/store/cachekv.Store).Delete": "verifCacheDelete",
+		"(*github.com/cosmos/cosmos-sdk/store/cachekv.Store).Write":  "verifCacheWrite",
+	},
 }
 
 var modulePath = "github.com/lavanet/lava/v5"
@@ -67,14 +84,14 @@ func main() {
 }
 
 type opts struct {
-	id       string
-	tier     string
-	only     string
-	replay   string
-	trace    bool
-	smtlog   bool
-	solver   string
-	noreplay bool
+	id        string
+	tier      string
+	only      string
+	replay    string
+	trace     bool
+	smtlog    bool
+	solver    string
+	noreplay  bool
 	checkFile string
 }
 
@@ -120,7 +137,9 @@ func parseOpts(args []string) *opts {
 
 var pkgLineRe = regexp.MustCompile(`(?m)^package\s+(\w+)`)
 
-func loadProgram(cc *CheckCfg, workDir string) (*ssa.Program, map[string]*ssa.Package, map[string]string, map[string]string, error) {
+// collectOverlay gathers the harness files, the shared helper files (package clause rewritten) and the generated prelude
+// of every package the check touches: content for go/packages, real paths for go test -overlay.
+func collectOverlay(cc *CheckCfg, workDir string) (map[string][]byte, map[string]string, map[string]string, error) {
 	overlay := map[string][]byte{}
 	overlayFiles := map[string]string{} // virtual -> real (for go test -overlay)
 	pkgNames := map[string]string{}     // rel dir -> package name
@@ -128,7 +147,7 @@ func loadProgram(cc *CheckCfg, workDir string) (*ssa.Program, map[string]*ssa.Pa
 		real := filepath.Join(verifDir, "harness", f)
 		data, err := os.ReadFile(real)
 		if err != nil {
-			return nil, nil, nil, nil, err
+			return nil, nil, nil, err
 		}
 		virt := filepath.Join(repoDir, f)
 		overlay[virt] = data
@@ -136,9 +155,29 @@ func loadProgram(cc *CheckCfg, workDir string) (*ssa.Program, map[string]*ssa.Pa
 		rel := filepath.Dir(f)
 		m := pkgLineRe.FindSubmatch(data)
 		if m == nil {
-			return nil, nil, nil, nil, fmt.Errorf("no package clause in %s", f)
+			return nil, nil, nil, fmt.Errorf("no package clause in %s", f)
 		}
 		pkgNames[rel] = string(m[1])
+	}
+	for rel, names := range cc.Shared {
+		pn, ok := pkgNames[rel]
+		if !ok {
+			return nil, nil, nil, fmt.Errorf("shared helper for %s: no harness file in that package", rel)
+		}
+		for _, n := range names {
+			data, err := os.ReadFile(filepath.Join(verifDir, "harness", "_shared", n+".go"))
+			if err != nil {
+				return nil, nil, nil, err
+			}
+			data = pkgLineRe.ReplaceAll(data, []byte("package "+pn))
+			dir := filepath.Join(workDir, "gen", strings.ReplaceAll(rel, "/", "_"))
+			os.MkdirAll(dir, 0o755)
+			real := filepath.Join(dir, "zz_verif_shared_"+n+".go")
+			os.WriteFile(real, data, 0o644)
+			virt := filepath.Join(repoDir, rel, "zz_verif_shared_"+n+".go")
+			overlay[virt] = data
+			overlayFiles[virt] = real
+		}
 	}
 	for rel, name := range pkgNames {
 		p := writePrelude(workDir, rel, name)
@@ -146,6 +185,14 @@ func loadProgram(cc *CheckCfg, workDir string) (*ssa.Program, map[string]*ssa.Pa
 		virt := filepath.Join(repoDir, rel, "zz_verif_prelude.go")
 		overlay[virt] = data
 		overlayFiles[virt] = p
+	}
+	return overlay, overlayFiles, pkgNames, nil
+}
+
+func loadProgram(cc *CheckCfg, workDir string) (*ssa.Program, map[string]*ssa.Package, map[string]string, map[string]string, error) {
+	overlay, overlayFiles, pkgNames, err := collectOverlay(cc, workDir)
+	if err != nil {
+		return nil, nil, nil, nil, err
 	}
 	var pats []string
 	seen := map[string]bool{}
@@ -164,6 +211,9 @@ func loadProgram(cc *CheckCfg, workDir string) (*ssa.Program, map[string]*ssa.Pa
 	initial, err := packages.Load(cfg, pats...)
 	if err != nil {
 		return nil, nil, nil, nil, err
+	}
+	for rf, hf := range cc.NativeOverlay { // native replay only
+		overlayFiles[filepath.Join(repoDir, rf)] = filepath.Join(verifDir, "harness", hf)
 	}
 	var errs []string
 	packages.Visit(initial, nil, func(p *packages.Package) {
@@ -272,6 +322,18 @@ func runCheck(args []string) int {
 			if !ok {
 				continue
 			}
+		}
+		if len(hj.StubSets) > 0 {
+			merged := map[string]string{}
+			for _, ss := range hj.StubSets {
+				for k, v := range stubSets[ss] {
+					merged[k] = v
+				}
+			}
+			for k, v := range h.Stubs {
+				merged[k] = v
+			}
+			h.Stubs = merged
 		}
 		h.Params = map[string]int{}
 		for k, v := range hj.HarnessCfg.Params {
@@ -627,21 +689,13 @@ func runReplayOnly(cc *CheckCfg, o *opts, workDir string) int {
 		fmt.Println("bad replay file:", err)
 		return 2
 	}
-	overlayFiles := map[string]string{}
-	pkgNames := map[string]string{}
-	for _, f := range cc.Files {
-		real := filepath.Join(verifDir, "harness", f)
-		d, err := os.ReadFile(real)
-		if err != nil {
-			fmt.Println(err)
-			return 2
-		}
-		overlayFiles[filepath.Join(repoDir, f)] = real
-		m := pkgLineRe.FindSubmatch(d)
-		pkgNames[filepath.Dir(f)] = string(m[1])
+	_, overlayFiles, pkgNames, err := collectOverlay(cc, workDir)
+	if err != nil {
+		fmt.Println(err)
+		return 2
 	}
-	for rel, name := range pkgNames {
-		overlayFiles[filepath.Join(repoDir, rel, "zz_verif_prelude.go")] = writePrelude(workDir, rel, name)
+	for rf, hf := range cc.NativeOverlay {
+		overlayFiles[filepath.Join(repoDir, rf)] = filepath.Join(verifDir, "harness", hf)
 	}
 	rel := relOfPkg(rp.Pkg)
 	var names []string
